@@ -1,5 +1,6 @@
 import RlibModel.Model.Writer
 import RlibModel.Model.IoRoundTrip
+import RlibModel.Model.IoMulti
 /-!
 Line-protocol driver for engine `writer` (property C09).
 
@@ -29,8 +30,56 @@ prints the values read back by the harness's read plan (`IoRT.planOps alt`):
 with `<v>` = decimal integer, `s:<hex>` string, `c:<hex>` char, `(…)` tuple read, `[…]` `read_vec`.
 Scripts outside the read-back domain (`IoRT.eligible`, characters ≥ 128, `buf < 39`) answer `INVALID`.
 `Props/C09.lean: readback_driver` proves `M = S` for every in-domain `r` line.
+
+Third line kind (several live objects, `Model/IoMulti.lean`):
+  `m buf=<BUF> dbg=<0|1|*> rbuf=<reader BUF> ; <slot> <step> ; <slot> <step> ; …`   (slot = 0..7)
+steps: `N <k> <j>` = `Writer::new` over a fresh sink (k, j: its delivery parameters, ignored by the model); `W …`, `C …`, `F`,
+`O …`, `L …` = the ops above on that writer; `T <val>` = the trait method `Writable::write(&val, &mut writer)` called
+directly (no debug flush); `MV` = the object is moved to a new address; `D` = drop; `LK` = `std::mem::forget` (no `Drop`, nothing shown); `RN <rc> <string val>` = `Reader::new` over
+a source that delivers the bytes of the string in chunks of `rc`; `RS` / `RC` / `RI <ty>` / `RE` = `read::<String>()` /
+`read::<char>()` / `read::<ty>()` / `is_eof()` on that reader. Writers still alive at the end are dropped in slot order.
+  `M mw ev=[<slot>:F=len:fnv,<slot>:R=<v>,<slot>:D=len:fnv[:hex],…] fmt=ok ub=ok|na|bad@i | V <same> | S <specification trace>`
+`Props/C09.lean: multi_driver` proves `M = S` for every in-domain `m` line.
+
+Fourth line kind (characters): `c buf=<BUF> dbg=<0|1|*> rbuf=<n> rc=<n> k=<n> j=<n> ; C <code> ; C <code> ; …` — the characters
+are written with `write_char`, the writer is dropped, every non-whitespace byte of the sink is read with `read::<char>()`, then
+`is_eof()`:  `M cb drop=len:fnv[:hex] vals=c:<hex>,…,eof=true | V <same> | S <the characters written>` (`readback_chars_driver`).
+
+String patterns: kind 3 = every ASCII byte that is not whitespace, NUL, the other control characters and DEL included;
+kind 4 = valid UTF-8 made of 1-, 2-, 3- and 4-byte characters (every byte value a Rust `String` can contain occurs).
 -/
 open Rlib Rlib.Decimal Rlib.Writer
+
+/-- The `x`-th ASCII byte that is not whitespace (`x < 123`): 0..8, 11, 14..31, 33..127. -/
+def nonWsAscii (x : Nat) : UInt8 :=
+  UInt8.ofNat (if x < 9 then x else if x = 9 then 11 else if x < 28 then x + 4 else x + 5)
+
+/-- Code point and UTF-8 length of the `n`-th character of a kind-4 pattern. -/
+def pat4Char (seed n : Nat) : Nat × Nat :=
+  match (seed + n) % 4 with
+  | 0 => ((seed * 5 + n * 13) % 128, 1)
+  | 1 => (0x80 + (seed * 31 + n * 61) % 0x780, 2)
+  | 2 =>
+    let cp := 0x800 + (seed * 257 + n * 1021) % 0xF000
+    (if cp ≥ 0xD800 then cp + 0x800 else cp, 3)
+  | _ => (0x10000 + (seed * 65537 + n * 69061) % 0x100000, 4)
+
+def utf8Push (acc : ByteArray) (cp : Nat) : ByteArray :=
+  let b (x : Nat) : UInt8 := UInt8.ofNat x
+  if cp < 0x80 then acc.push (b cp)
+  else if cp < 0x800 then (acc.push (b (0xC0 + cp / 64))).push (b (0x80 + cp % 64))
+  else if cp < 0x10000 then ((acc.push (b (0xE0 + cp / 4096))).push (b (0x80 + cp / 64 % 64))).push (b (0x80 + cp % 64))
+  else (((acc.push (b (0xF0 + cp / 262144))).push (b (0x80 + cp / 4096 % 64))).push (b (0x80 + cp / 64 % 64))).push (b (0x80 + cp % 64))
+
+/-- Kind 4: characters of 1–4 bytes in rotation; a character that no longer fits is replaced by a one-byte one. -/
+def pat4Loop (seed : Nat) : Nat → Nat → Nat → ByteArray → ByteArray
+  | 0, _, _, acc => acc
+  | fuel + 1, remaining, n, acc =>
+    if remaining = 0 then acc
+    else
+      let (cp, sz) := pat4Char seed n
+      if sz ≤ remaining then pat4Loop seed fuel (remaining - sz) (n + 1) (utf8Push acc cp)
+      else pat4Loop seed fuel (remaining - 1) (n + 1) (acc.push (UInt8.ofNat ((seed * 5 + n * 13) % 128)))
 
 /-- One byte of a pattern string (the harness computes the same). -/
 def patByte (kind seed len i : Nat) : UInt8 :=
@@ -39,6 +88,7 @@ def patByte (kind seed len i : Nat) : UInt8 :=
   | 1 =>
     let x := (seed + i * 11) % 97
     if x < 94 then UInt8.ofNat (33 + x) else if x = 94 then 32 else if x = 95 then 10 else 9
+  | 3 => nonWsAscii ((seed + i * 7) % 123)
   | _ =>
     -- two-byte UTF-8 characters U+00E0..U+00EF, preceded by one `x` when `len` is odd
     if len % 2 = 1 ∧ i = 0 then 120
@@ -50,7 +100,9 @@ def patLoop (kind seed len i : Nat) (acc : ByteArray) : ByteArray :=
   if i < len then patLoop kind seed len (i + 1) (acc.push (patByte kind seed len i)) else acc
 termination_by len - i
 
-def patBytes (kind seed len : Nat) : ByteArray := patLoop kind seed len 0 (ByteArray.emptyWithCapacity len)
+def patBytes (kind seed len : Nat) : ByteArray :=
+  if kind = 4 then pat4Loop seed len len 0 (ByteArray.emptyWithCapacity len)
+  else patLoop kind seed len 0 (ByteArray.emptyWithCapacity len)
 
 def parseHexBytes (cs : List Char) (acc : ByteArray) : Option ByteArray :=
   match cs with
@@ -87,7 +139,7 @@ def parseScalar (tok : String) : Option Val :=
   | [ty, k, l, s] =>
     if ty = "s" ∨ ty = "S" then
       match parseNat? k, parseNat? l, parseNat? s with
-      | some k, some l, some s => if k ≤ 2 then some (.str (patBytes k s l)) else none
+      | some k, some l, some s => if k ≤ 4 then some (.str (patBytes k s l)) else none
       | _, _, _ => none
     else none
   | _ => none
@@ -319,7 +371,125 @@ def handleR (line : String) : String :=
         answer s!"rb drop={obsStr sink} vals={showRs (IoRT.readBack h.rbuf h.rc h.alt ops (txt sink))}" sview
     | _, _ => "M INVALID | V INVALID | S any"
 
+/-! ### `m` lines: several live objects (`Model/IoMulti.lean`) -/
+open Rlib.IoMulti in
+def parseMStep (rbuf : Nat) (s : String) : Option MOp :=
+  match tokens s with
+  | k :: rest =>
+    match parseNat? k with
+    | none => none
+    | some k =>
+      match rest with
+      | ["N", a, b] =>   -- `j = 1`: a sink that never accepts anything (the harness rejects it too)
+        if (parseNat? a).isSome ∧ (parseNat? b).isSome ∧ parseNat? b ≠ some 1 then some (.newW k) else none
+      | ["D"] => some (.drop k)
+      | ["MV"] => some (.move k)
+      | ["LK"] => some (.leak k)
+      | ["RS"] => some (.read k (.read .str))
+      | ["RC"] => some (.read k (.read .chr))
+      | ["RE"] => some (.read k .eof)
+      | ["RI", ty] => (IntTy.parse? ty).map (fun t => .read k (.read (.int t)))
+      | ["RN", rc, v] =>
+        match parseNat? rc, parseScalar v with
+        | some rc, some (.str bs) => some (.newR k rbuf rc bs.data.toList)
+        | _, _ => none
+      | "T" :: vs =>
+        match parseVal 400 vs with
+        | some (v, []) => some (.call k (.tr v))
+        | _ => none
+      | _ => (parseOp (" ".intercalate rest)).map (fun o => .call k (.pub o))
+  | [] => none
+
+structure MHdr where
+  buf : Nat
+  dbg : Option Bool
+  rbuf : Nat
+
+def parseMHdr (s : String) : Option MHdr :=
+  match tokens s with
+  | "m" :: fs =>
+    match (hdrField fs "buf").bind parseNat?, hdrField fs "dbg", (hdrField fs "rbuf").bind parseNat? with
+    | some buf, some d, some rbuf =>
+      if d = "0" then some ⟨buf, some false, rbuf⟩ else if d = "1" then some ⟨buf, some true, rbuf⟩
+      else if d = "*" then some ⟨buf, none, rbuf⟩ else none
+    | _, _, _ => none
+  | _ => none
+
+def showEv : IoMulti.Ev → String
+  | .flushed k b => s!"{k}:F={obsStr b}"
+  | .dropped k b => s!"{k}:D={dropStr b}"
+  | .read k o => s!"{k}:R={showROut o}"
+  | .panic e => e.toString
+  | .undef => "undef"
+  | .invalid => "INVALID"
+
+def mView (evs : List IoMulti.Ev) (ub : String) : String :=
+  s!"mw ev=[{",".intercalate (evs.map showEv)}] fmt=ok ub={ub}"
+
+def mCallInDomain : IoMulti.MOp → Bool
+  | .call _ (.pub o) => opInDomain o
+  | _ => true
+
+def firstPanic : List IoMulti.Ev → Option Panic
+  | [] => none
+  | .panic e :: _ => some e
+  | _ :: es => firstPanic es
+
+def handleM (line : String) : String :=
+  match splitOps line with
+  | [] => badLine line
+  | hdr :: opss =>
+    match parseMHdr hdr with
+    | none => "M INVALID | V INVALID | S any"
+    | some h =>
+      match (opss.filter (· ≠ "")).mapM (parseMStep h.rbuf) with
+      | none => "M INVALID | V INVALID | S any"
+      | some ops =>
+        if h.buf = 0 then "M INVALID | V INVALID | S any" else
+        let sev := IoMulti.specMulti ops (fun _ => .none)
+        if sev.contains .invalid then "M INVALID | V INVALID | S any" else
+        let c : Cfg := ⟨h.buf, h.dbg.getD false⟩
+        let inDom := decide (39 ≤ h.buf) && IoMulti.validAll ops && ops.all mCallInDomain && !sev.contains .undef
+          && (firstPanic sev).isNone && IoMulti.readsInDom ops (fun _ => .none)
+        let sview := if inDom then mView sev (ubStr h.dbg none) else "any"
+        let (mev, behind) := IoMulti.runMulti c ops (fun _ => .none) 0 none
+        match firstPanic mev with
+        | some e => answer e.toString sview
+        | none => answer (mView mev (ubStr h.dbg behind)) sview
+
+/-! ### `c` lines: characters written with `write_char`, read back with `read::<char>()` -/
+
+def parseCStep (s : String) : Option Nat :=
+  match parseOp s with
+  | some (.wchar n) => some n
+  | _ => none
+
+def handleC (line : String) : String :=
+  match splitOps line with
+  | [] => badLine line
+  | hdr :: opss =>
+    match tokens hdr with
+    | "c" :: fs =>
+      match (hdrField fs "buf").bind parseNat?, hdrField fs "dbg", (hdrField fs "rbuf").bind parseNat?,
+          (hdrField fs "rc").bind parseNat?, (opss.filter (· ≠ "")).mapM parseCStep with
+      | some buf, some d, some rbuf, some rc, some codes =>
+        if buf = 0 ∨ rbuf = 0 ∨ ¬ (d = "0" ∨ d = "1" ∨ d = "*") then "M INVALID | V INVALID | S any" else
+        let c : Cfg := ⟨buf, d = "1"⟩
+        let inDom := decide (39 ≤ buf) && codes.all (· < 128)
+        let stext := (codes.map UInt8.ofNat).toByteArray
+        let sview := if inDom then s!"cb drop={dropStr stext} vals={showRs (IoMulti.expectedChars codes)}" else "any"
+        match runOps c (codes.map Op.wchar) WState.init with
+        | .error e => answer e.toString sview
+        | .ok s =>
+          let sink := (drop s).sink
+          answer s!"cb drop={dropStr sink} vals={showRs (IoMulti.readBackChars rbuf rc (txt sink))}" sview
+      | _, _, _, _, _ => "M INVALID | V INVALID | S any"
+    | _ => "M INVALID | V INVALID | S any"
+
 def handleAny (line : String) : String :=
-  if line.startsWith "r " then handleR line else handle line
+  if line.startsWith "r " then handleR line
+  else if line.startsWith "m " then handleM line
+  else if line.startsWith "c " then handleC line
+  else handle line
 
 def main : IO Unit := driverMain handleAny
